@@ -73,3 +73,28 @@ func VP_C14_StreamEnd() {
 	vp.Assert(left <= 1, "no-goroutine-left-behind-by-a-finished-logical-connection")
 	vp.Reach("stream-ended")
 }
+
+// (d) a physical connection whose handshake fails - the peer hangs up before, during or after its announce request, or
+// sends something else - is closed by the server and nothing keeps running for it.
+var vp14BadPeers = []string{
+	"",
+	"X-SOCKETACE / HTTP/1.1\r\nAccepts-Protocol-Version: v2.0.0\r\n\r\n",
+	"X-SOCKETACE / HTTP/1.1\r\nAccepts-Prot",
+	"garbage\r\n\r\n",
+	"X-SOCKETACE / HTTP/1.1\r\nAccepts-Protocol-Version: v9.9.9\r\n\r\n",
+}
+
+func VP_C14_FailedHandshake() {
+	vpS = &vpSrvEnv{}
+	carrier := newVpConn("peer")
+	if script := vp14BadPeers[vp.Param("peer")]; len(script) > 0 {
+		carrier.push([]byte(script))
+	}
+	carrier.finish() // the peer hangs up
+	err := AcceptConnection(carrier, nil, false, Channels{&vpChannel{name: "a"}})
+	left := vp.Quiesce()
+	vp.Assert(err != nil && len(vpS.sessions) == 0, "failed-handshake-gives-no-session")
+	vp.Assert(carrier.closed > 0, "connection-closed-after-a-failed-handshake")
+	vp.Assert(left == 0, "nothing-left-running-for-a-failed-handshake")
+	vp.Reach("handshake-failed")
+}
